@@ -4,8 +4,8 @@ import json, os, re, time
 from concurrent.futures import ThreadPoolExecutor
 from vcheck import *
 
-SLOTS = [("interp", "param"), ("interp", "const"), ("interp", "memory"),
-         ("compiler", "param"), ("compiler", "const"), ("compiler", "memory")]
+SLOTS = [("interp", "param"), ("interp", "const"), ("interp", "memory"), ("interp", "const-left"), ("interp", "const-right"),
+         ("compiler", "param"), ("compiler", "const"), ("compiler", "memory"), ("compiler", "const-left"), ("compiler", "const-right")]
 TRAPS = {-1: "integer divide by zero", -2: "integer overflow", -3: "invalid conversion to integer", -8: "go panic", -9: "other error"}
 
 # per-tier harness parameters: (classes, crossed-core budget, random tuples, constant-mode calls, exhaustive 8-bit lanes)
